@@ -76,7 +76,7 @@ theorem pairwise_mem_ne {α : Type} (R : α → α → Prop) (symm : ∀ a b, R 
 def coverI (d a : Nat) (i : Inlinee) : Bool :=
   decide (i.depth = d) && decide (i.address ≤ a) && decide (a < i.address + i.size)
 
-theorem inlineeAt_sorted (L : List Inlinee) (h : InlOK L) (d a : Nat) :
+theorem inlineeAt_sorted_at (L : List Inlinee) (a : Nat) (h : InlAt L a) (d : Nat) :
     inlineeAt (L.mergeSort inlLE) d a = L.find? (coverI d a) := by
   have hperm : (L.mergeSort inlLE).Perm L := List.mergeSort_perm L inlLE
   have hsorted := List.pairwise_mergeSort inlLE_trans inlLE_total L
@@ -103,9 +103,6 @@ theorem inlineeAt_sorted (L : List Inlinee) (h : InlOK L) (d a : Nat) :
       exact getElem?_append_last P Q hne
   rw [hlast]
   have hmemL : ∀ x, x ∈ P ++ Q ↔ x ∈ L := fun x => hperm.mem_iff
-  have hsymm : ∀ i j : Inlinee, (i.depth = j.depth → i.address + i.size ≤ j.address ∨ j.address + j.size ≤ i.address) →
-      (j.depth = i.depth → j.address + j.size ≤ i.address ∨ i.address + i.size ≤ j.address) := by
-    intro i j hij hd; exact (hij hd.symm).symm
   cases hf : L.find? (coverI d a) with
   | some c =>
     have hcL := List.mem_of_find?_eq_some hf
@@ -130,11 +127,10 @@ theorem inlineeAt_sorted (L : List Inlinee) (h : InlOK L) (d a : Nat) :
     have hec : e = c := by
       by_cases hne : e = c
       · exact hne
-      · have := pairwise_mem_ne _ hsymm L h.disj e c heL hcL hne (by omega)
-        have hpe := (h.pos e heL).1
+      · have := h.sep c hcL hca hce e heL (by omega) hne
         omega
     rw [he, hec]
-    have hpc := (h.pos c hcL).2
+    have hpc := h.top c hcL hca hce
     simp [hcd, hpc, hce]
   | none =>
     have hnone : ∀ x ∈ L, coverI d a x = false := by
@@ -159,6 +155,20 @@ theorem inlineeAt_sorted (L : List Inlinee) (h : InlOK L) (d a : Nat) :
           · exact h'
         simp [hd, h2]
       · simp [hd]
+
+theorem inlAt_of_inlOK (L : List Inlinee) (h : InlOK L) (a : Nat) : InlAt L a := by
+  have hsymm : ∀ i j : Inlinee, (i.depth = j.depth → i.address + i.size ≤ j.address ∨ j.address + j.size ≤ i.address) →
+      (j.depth = i.depth → j.address + j.size ≤ i.address ∨ i.address + i.size ≤ j.address) := by
+    intro i j hij hd; exact (hij hd.symm).symm
+  refine ⟨fun c hc _ _ => (h.pos c hc).2, ?_⟩
+  intro c hc _ _ e he hd hne
+  have := pairwise_mem_ne _ hsymm L h.disj e c he hc hne hd
+  have hpe := (h.pos e he).1
+  omega
+
+theorem inlineeAt_sorted (L : List Inlinee) (h : InlOK L) (d a : Nat) :
+    inlineeAt (L.mergeSort inlLE) d a = L.find? (coverI d a) :=
+  inlineeAt_sorted_at L a (inlAt_of_inlOK L h a) d
 
 def triple (i : Inlinee) : Nat × Nat × Nat := (i.callLine, i.callFile, i.originId)
 
@@ -340,6 +350,134 @@ theorem sourceLoc_spec (LS : List SourceLine) (fend a : Nat) (h : LinesOK LS fen
     have : P.isEmpty = false := by rw [hP]; rfl
     simp only [this, Bool.false_eq_true, if_false, Option.bind_some]
     exact getElem?_append_last P Q hne
+
+/-! ### line records, pointwise in the address -/
+
+theorem linesAsc_sorted (LS : List SourceLine) (h : LinesAsc LS) :
+    LS.Pairwise (fun a b => a.address ≤ b.address) := by
+  unfold LinesAsc at h
+  exact List.Pairwise.imp (fun hab => by omega) h
+
+theorem takeWhile_last_cover_at (LS : List SourceLine) (a : Nat) (hasc : LinesAsc LS) (hat : LineAt LS a) :
+    (LS.takeWhile (fun l => decide (l.address ≤ a))).getLast? = LS.find? (coverL a) := by
+  induction LS with
+  | nil => rfl
+  | cons l1 rest ih =>
+    have hp := List.pairwise_cons.1 hasc
+    by_cases h1 : l1.address ≤ a
+    · by_cases hc : a < l1.address + l1.size
+      · -- l1 covers a: nothing behind it starts at or below a
+        have hcov : coverL a l1 = true := by simp [coverL, h1, hc]
+        have hrest : rest.takeWhile (fun l => decide (l.address ≤ a)) = [] := by
+          cases rest with
+          | nil => rfl
+          | cons l2 r =>
+            have := hp.1 l2 (by simp)
+            have : ¬ l2.address ≤ a := by omega
+            simp [List.takeWhile, this]
+        simp [List.takeWhile, h1, hrest, List.find?_cons, hcov]
+      · -- l1 starts at or below a but does not cover it: the covering record is in the rest
+        have hcov : coverL a l1 = false := by
+          simp only [coverL, Bool.and_eq_false_iff, decide_eq_false_iff_not]; right; exact hc
+        obtain ⟨l, hl, hla, hlb⟩ : ∃ l ∈ rest, l.address ≤ a ∧ a < l.address + l.size := by
+          rcases hat with ⟨l, hl, hla, hlb⟩ | hall
+          · rcases List.mem_cons.1 hl with e | e
+            · subst e; exact absurd hlb hc
+            · exact ⟨l, e, hla, hlb⟩
+          · exact absurd (hall l1 (by simp)) (by omega)
+        have hat' : LineAt rest a := Or.inl ⟨l, hl, hla, hlb⟩
+        have ih' := ih hp.2 hat'
+        have hsome : ∃ x, rest.find? (coverL a) = some x := by
+          cases hf : rest.find? (coverL a) with
+          | some x => exact ⟨x, rfl⟩
+          | none =>
+            have := List.find?_eq_none.1 hf l hl
+            exact absurd (by simp [coverL, hla, hlb]) this
+        obtain ⟨x, hx⟩ := hsome
+        rw [List.find?_cons, hcov]
+        simp only
+        rw [← ih']
+        rw [hx] at ih'
+        have hne : rest.takeWhile (fun l => decide (l.address ≤ a)) ≠ [] := by
+          intro he; rw [he] at ih'; cases ih'
+        simp only [List.takeWhile, h1, decide_true]
+        cases hT : rest.takeWhile (fun l => decide (l.address ≤ a)) with
+        | nil => exact absurd hT hne
+        | cons t ts => rw [List.getLast?_cons_cons]
+    · -- a lies before l1, hence before everything
+      have hnone : (l1 :: rest).find? (coverL a) = none := by
+        rw [List.find?_eq_none]
+        intro x hx
+        simp only [coverL, Bool.and_eq_true, decide_eq_true_eq, not_and]
+        rcases List.mem_cons.1 hx with e | e
+        · subst e; intro hh; exact absurd hh h1
+        · intro hh; have := hp.1 x e; omega
+      rw [hnone]
+      simp [List.takeWhile, h1]
+
+theorem sourceLoc_spec_at (LS : List SourceLine) (a : Nat) (hasc : LinesAsc LS) (hat : LineAt LS a) :
+    sourceLoc LS a = LS.find? (coverL a) := by
+  unfold sourceLoc
+  have hs := linesAsc_sorted LS hasc
+  rw [bsearchLE_sorted (fun (l : SourceLine) => l.address) LS hs a]
+  rw [← takeWhile_last_cover_at LS a hasc hat]
+  have hl := List.takeWhile_append_dropWhile (p := fun (l : SourceLine) => decide (l.address ≤ a)) (l := LS)
+  generalize LS.takeWhile (fun l => decide (l.address ≤ a)) = P at hl
+  generalize LS.dropWhile (fun l => decide (l.address ≤ a)) = Q at hl
+  subst hl
+  cases hP : P with
+  | nil => simp
+  | cons p0 P' =>
+    rw [← hP]
+    have hne : P ≠ [] := by rw [hP]; simp
+    have : P.isEmpty = false := by rw [hP]; rfl
+    simp only [this, Bool.false_eq_true, if_false, Option.bind_some]
+    exact getElem?_append_last P Q hne
+
+theorem linesOK_ge (l : SourceLine) (rest : List SourceLine) (fend : Nat) (h : LinesOK (l :: rest) fend) :
+    ∀ x ∈ rest, l.address + l.size ≤ x.address := by
+  cases rest with
+  | nil => simp
+  | cons l2 r =>
+    obtain ⟨_, h2, h3⟩ := h
+    intro x hx
+    rcases List.mem_cons.1 hx with e | e
+    · subst e; omega
+    · have := linesOK_lt l2 r fend h3 x e; omega
+
+theorem linesAsc_of_linesOK (LS : List SourceLine) (fend : Nat) (h : LinesOK LS fend) : LinesAsc LS := by
+  induction LS with
+  | nil => exact List.Pairwise.nil
+  | cons l rest ih =>
+    refine List.pairwise_cons.2 ⟨linesOK_ge l rest fend h, ?_⟩
+    cases rest with
+    | nil => exact List.Pairwise.nil
+    | cons l2 r => exact ih h.2.2
+
+theorem lineAt_of_linesOK (LS : List SourceLine) (fend a : Nat) (h : LinesOK LS fend) (ha : a < fend) :
+    LineAt LS a := by
+  induction LS with
+  | nil => right; simp
+  | cons l1 rest ih =>
+    cases rest with
+    | nil =>
+      have h' : fend ≤ l1.address + l1.size := h
+      by_cases h1 : l1.address ≤ a
+      · left; exact ⟨l1, by simp, h1, by omega⟩
+      · right; intro l hl; simp at hl; subst hl; omega
+    | cons l2 r =>
+      obtain ⟨hlt, hcont, hrest⟩ := h
+      by_cases h1 : l1.address ≤ a
+      · by_cases hc : a < l1.address + l1.size
+        · left; exact ⟨l1, by simp, h1, hc⟩
+        · rcases ih hrest with ⟨l, hl, hla, hlb⟩ | hall
+          · left; exact ⟨l, List.mem_cons_of_mem _ hl, hla, hlb⟩
+          · have := hall l2 (by simp); omega
+      · right
+        intro l hl
+        rcases List.mem_cons.1 hl with e | e
+        · subst e; omega
+        · have := linesOK_lt l1 (l2 :: r) fend ⟨hlt, hcont, hrest⟩ l e; omega
 
 theorem cover_lineAt (body : List Rec) (a : Nat) :
     ((linesOf body).find? (coverL a)).map (fun l => (l.line, l.file)) = lineAt body a := by
